@@ -5,7 +5,7 @@ from itertools import count
 from types import CodeType
 
 from . import _verif
-from .mro import sort_types
+from .mro import Order, sort_types, typeorder
 from .recode import generate_dependent_dispatch
 from .utils import MISSING, subtler_type
 
@@ -65,19 +65,23 @@ class Candidate:
     priority: float
     specificity: tuple
     tiebreak: int
+    types: tuple = ()
 
     def sort_key(self):
         return self.priority, sum(self.specificity), self.tiebreak
 
     def dominates(self, other):
-        if self.priority > other.priority:
-            return True
-        elif self.specificity != other.specificity:
-            return all(
-                s1 >= s2 for s1, s2 in zip(self.specificity, other.specificity)
-            )
-        else:
+        if self.priority != other.priority:
+            return self.priority > other.priority
+        # The specificity levels are only a linear extension of the type
+        # order (good for sorting): two unrelated types may end up on
+        # different levels, or on the same one. Whether a candidate is at
+        # least as specific as another is decided on the declared types.
+        orders = [typeorder(t1, t2) for t1, t2 in zip(self.types, other.types)]
+        if all(o is Order.SAME for o in orders):
             return self.tiebreak > other.tiebreak
+        else:
+            return all(o is Order.LESS or o is Order.SAME for o in orders)
 
 
 class MultiTypeMap(dict):
@@ -166,6 +170,18 @@ class MultiTypeMap(dict):
                 if sig.req_pos == 0 and not sig.req_names
             }
 
+        def declared(handler, key):
+            for i, t in enumerate(self.type_tuples[handler]):
+                if isinstance(t, tuple):
+                    if t[0] == key:
+                        return t[1]
+                elif i == key:
+                    return t
+
+        keys = [
+            t[0] if isinstance(t, tuple) else i for i, t in enumerate(obj_t_tup)
+        ]
+
         candidates = _verif.order("mro.candidates", candidates)
         candidates = [
             Candidate(
@@ -173,6 +189,7 @@ class MultiTypeMap(dict):
                 priority=self.priorities.get(c, 0),
                 specificity=tuple(specificities.get(c, ())),
                 tiebreak=self.tiebreaks.get(c, 0),
+                types=tuple(declared(c, k) for k in keys),
             )
             for c in candidates
         ]
@@ -189,26 +206,21 @@ class MultiTypeMap(dict):
             getattr(c.handler, "__code__", None) for c in candidates
         }
 
-        processed = set()
-
         def _pull(candidates):
-            candidates = [c for c in candidates if c.handler not in processed]
-            if not candidates:
-                return
-            rval = [candidates[0]]
-            c1 = candidates[0]
-            for c2 in candidates[1:]:
-                if c1.dominates(c2):
-                    # Candidate 1 dominates candidate 2
-                    continue
-                else:
-                    processed.add(c2.handler)
-                    # Candidate 1 does not dominate candidate 2, so we add it
-                    # to the list.
-                    rval.append(c2)
-            yield rval
-            if len(rval) >= 1:
-                yield from _pull(candidates[1:])
+            # Successive ranks: the candidates that no other remaining
+            # candidate dominates, then the same among the rest, and so on.
+            remaining = list(candidates)
+            while remaining:
+                rank = [
+                    c
+                    for c in remaining
+                    if not any(o.dominates(c) for o in remaining if o is not c)
+                ]
+                if not rank:  # pragma: no cover
+                    # Inconsistent user-defined orderings
+                    rank = remaining
+                yield rank
+                remaining = [c for c in remaining if c not in rank]
 
         return list(_pull(candidates))
 
